@@ -372,6 +372,21 @@ type pfAnswer struct {
 
 // Check runs all solvers in parallel; the first definite answer wins; losers are restarted.
 func (p *Portfolio) Check(assertions []*Term, timeout time.Duration, wantModel []*Term) (Result, map[string]*big.Int, string, string) {
+	// fast path: the solver that has won most often so far, alone, with a short cap
+	lead := 0
+	for i, n := range p.names {
+		if p.Wins[n] > p.Wins[p.names[lead]] {
+			lead = i
+		}
+	}
+	fast := 3 * time.Second
+	if timeout < fast {
+		fast = timeout
+	}
+	if r, m, e := p.solvers[lead].Check(assertions, fast, wantModel); r != Unknown && e == "" {
+		p.Wins[p.names[lead]]++
+		return r, m, p.names[lead], ""
+	}
 	ch := make(chan pfAnswer, len(p.solvers))
 	for i, s := range p.solvers {
 		go func(i int, s *Solver) {
